@@ -26,14 +26,32 @@ func main() {
 			object.VerifResetTypeCaches()
 			var wg sync.WaitGroup
 			bodies := sc.Make()
-			for rep := 0; rep < 4; rep++ {
+			var want []string
+			if sc.Free {
 				for _, b := range bodies {
-					b := b
+					want = append(want, b())
+				}
+			}
+			var mu sync.Mutex
+			for rep := 0; rep < 4; rep++ {
+				for i, b := range bodies {
+					i, b := i, b
 					wg.Add(1)
 					go func() {
 						defer wg.Done()
-						defer func() { recover() }()
-						b()
+						defer func() {
+							if p := recover(); p != nil && sc.Free {
+								mu.Lock()
+								fmt.Printf("RESULT-DIFFERS %s | evaluation %d panics when copies of the evaluations run at once: %v\n", sc.Name, i, p)
+								mu.Unlock()
+							}
+						}()
+						got := b()
+						if sc.Free && got != want[i] {
+							mu.Lock()
+							fmt.Printf("RESULT-DIFFERS %s | evaluation %d returns %.200s when copies of the evaluations run at once, and %.200s alone\n", sc.Name, i, got, want[i])
+							mu.Unlock()
+						}
 					}()
 				}
 			}
